@@ -132,7 +132,10 @@ def streams(tier, rng, P, only=None, cases=None):
             src = prelude + "PRINT(" + txt + ")"
             cs.append(dict(req="run " + hx(src), src=src, show=src, tree=",".join(polish(t)), nops=nops(t), key="e%d" % i))
         for j, (src, tree) in enumerate([("PRINT(2*3+1)", "b3,b0,I2,I3,I1"), ("PRINT(10-2-3)", "b4,b4,I10,I2,I3"), ("PRINT(8/2/2)", "b1,b1,I8,I2,I2"),
-                                         ("PRINT(1<2&2<3)", "b11,b9,I1,I2,b9,I2,I3"), ("PRINT(7%0)", "b2,I7,I0"), ("PRINT((2*3)+1)", "b3,b0,I2,I3,I1")]):
+                                         ("PRINT(1<2&2<3)", "b11,b9,I1,I2,b9,I2,I3"), ("PRINT(7%0)", "b2,I7,I0"), ("PRINT((2*3)+1)", "b3,b0,I2,I3,I1"),
+                                         # the ends of the 64-bit range written as literals
+                                         ("PRINT(-9223372036854775808)", "n,I9223372036854775808"), ("PRINT(9223372036854775807)", "I9223372036854775807"),
+                                         ("PRINT(-9223372036854775807)", "n,I9223372036854775807"), ("PRINT(-9223372036854775808+1)", "b3,n,I9223372036854775808,I1")]):
             cs.append(dict(req="run " + hx(src), src=src, show=src, tree=tree, nops=2, key="fixed%d" % j))
         return cs
     def expr_model(c, st, f): return ["expr " + c["tree"]]
